@@ -33,7 +33,7 @@ func Main() {
 	case "child":
 		childMain(os.Args[2], splitKV(os.Args[3:]))
 	case "needs-race":
-		if e := engines[os.Args[2]]; e != nil && e.Race {
+		if e := engines[os.Args[2]]; e != nil && needsRace(e) {
 			os.Exit(0)
 		}
 		os.Exit(1)
@@ -54,6 +54,22 @@ func Main() {
 	default:
 		usage()
 	}
+}
+
+func needsRace(e *Engine) bool {
+	if e.Race {
+		return true
+	}
+	if e.Variants != nil {
+		for _, t := range []string{"quick", "thorough"} {
+			for _, v := range e.Variants(t) {
+				if v.Race {
+					return true
+				}
+			}
+		}
+	}
+	return false
 }
 
 func usage() {
@@ -208,16 +224,20 @@ func parentMain(id string, args []string) int {
 	}
 	root := Root()
 	exe := SelfExe()
-	if e.Race && !raceBuild {
-		exe = filepath.Join(root, "bin", "vcheck-race")
-		if _, err := os.Stat(exe); err != nil {
-			fmt.Printf("INCONCLUSIVE property=%s reason=race build %s missing\n", id, exe)
+	raceExe := exe
+	if !raceBuild {
+		raceExe = filepath.Join(root, "bin", "vcheck-race")
+		if _, err := os.Stat(raceExe); err != nil && needsRace(e) {
+			fmt.Printf("INCONCLUSIVE property=%s reason=race build %s missing\n", id, raceExe)
 			return 2
 		}
 	}
+	if e.Race {
+		exe = raceExe
+	}
 
 	if replay != "" {
-		return replayMain(e, exe, replay)
+		return replayMain(e, exe, raceExe, replay)
 	}
 
 	dir := filepath.Join(root, "work", fmt.Sprintf("%s-%d", id, os.Getpid()))
@@ -260,7 +280,11 @@ func parentMain(id string, args []string) int {
 				defer func() { <-sem }()
 				resume := int64(0)
 				for attempt := 0; ; attempt++ {
-					cr, res, ok := runChild(exe, e, v, tier, seed, s, nshards, resume, dir, attempt, deadline)
+					x := exe
+					if v.Race {
+						x = raceExe
+					}
+					cr, res, ok := runChild(x, e, v, tier, seed, s, nshards, resume, dir, attempt, deadline)
 					mu.Lock()
 					if res != nil {
 						results = append(results, *res)
@@ -552,7 +576,7 @@ func runChild(exe string, e *Engine, v Variant, tier string, seed int64, shard, 
 	return cr, res, false
 }
 
-func replayMain(e *Engine, exe, path string) int {
+func replayMain(e *Engine, exe, raceExe, path string) int {
 	b, err := os.ReadFile(path)
 	if err != nil {
 		fmt.Fprintln(os.Stderr, err)
@@ -578,6 +602,9 @@ func replayMain(e *Engine, exe, path string) int {
 		if x.Name == rep.Variant {
 			v = x
 		}
+	}
+	if v.Race {
+		exe = raceExe
 	}
 	args := []string{"child", e.ID, "--tier=" + rep.Tier, fmt.Sprintf("--seed=%d", rep.Seed), "--shard=0", "--nshards=1",
 		"--variant=" + rep.Variant, fmt.Sprintf("--only-case=%d", rep.Case)}
